@@ -154,6 +154,11 @@ func (rm *Manager) getCustomizeHookResponse(parent *unstructured.Unstructured) (
 		if err := rm.customizeHook.Call(request, &response); err != nil {
 			return nil, err
 		}
+		for i, rule := range response.RelatedResourceRules {
+			if rule == nil {
+				return nil, fmt.Errorf("customize hook returned a null entry in relatedResources[%d]", i)
+			}
+		}
 
 		rm.customizeCache.Set(customizeKey{parent.GetUID(), parent.GetGeneration()}, &response)
 		return &response, nil
